@@ -36,12 +36,18 @@ P = {
    technique="Coq proof (state-machine induction; map over Range) + metamorphic correspondence through the public API",
    design_ref="5/C07"),
  "C10": dict(claimed=True,
-   text="Coq theorems over NumFmt.v: the format-string scanner agrees with the number-format grammar for every well-formed AST outside "
-        "the known classes (C10_scanner_agrees_with_grammar, induction over tokens with the neutral-at-boundaries invariant; "
-        "C10_first_section_only), both built-in tables agree with each other and with the ECMA-376 list for all 65536 codes "
+   text="Coq theorems over NumFmt.v: the format-string scanner agrees with the number-format grammar for every well-formed AST "
+        "(C10_scanner_agrees_with_grammar, induction over tokens with the neutral-at-boundaries invariant; C10_first_section_only). "
+        "Since audit 2 (FMT-1) the grammar has the date tokens of Excel's format language that ECMA-376 shows only inside "
+        "locale-specific built-in formats — aaa / aaaa (day of the week), g / gg / ggg (era), e / ee (year of the era), bb / bbbb "
+        "(Buddhist year) — and the context of the exponent (E+ / e- directly after a digit placeholder, '.' or ','; elsewhere e is the "
+        "year of the era: C10_wf_is, exponent_context_needed); C10_locale_date_tokens_decide (a format whose first deciding token is one "
+        "of them, e.g. [$-411]aaaa, ggge\"年\", bbbb, is DateTime); C10_scanner_counters_bounded (the u8 counters of the scanner cannot "
+        "overflow); the scanner model has the General keyword look-ahead. Both built-in tables agree with each other and with the ECMA-376 list for all 65536 codes "
         "(finite sweep lifted by forallb_forall, bound in the statement), and date_iff_style for the xlsx/xls/xlsb style plumbing. "
-        "Six known classes carry refutation lemmas with witnesses. Tie: hooks on the scanner and tables (all strings up to length 5 "
-        "over the significant alphabet, grammar derivations, all codes) and generated xlsx/xls/xlsb files through the public API.",
+        "No known class left (seven repaired in /repo). Tie: hooks on the scanner and tables (all strings up to length 5 "
+        "over the significant alphabet and over a second alphabet with the era / Buddhist letters, the exponent context and the start "
+        "of General; grammar derivations with the new tokens; all codes) and generated xlsx/xls/xlsb files through the public API.",
    note=TB + " RK bit decoding, text->f64 parsing and atoi on the s attribute are computed by the driver, not modelled.",
    technique="Coq proof (token-list induction with scanner-state invariant; finite table sweep) + extracted-model correspondence",
    design_ref="5/C10"),
@@ -130,7 +136,9 @@ P = {
         "unbounded induction over chunks, flag groups and tokens; copy-token codec proved arithmetically per bit count, overlapping "
         "copy = bytewise copy; C18_dir_roundtrip and C18_vba_project_roundtrip unconditional (code page, references of three kinds "
         "with or without their optional name record, modules); C18_module_text_is_codepage_decoding (for every decoder: get_module = "
-        "the decoder of the project's code page applied to get_module_raw = decompress of the stream from the recorded offset). No "
+        "the decoder of the project's code page applied to get_module_raw = decompress of the stream from the recorded offset); "
+        "C18_vba_project_respelled / C18_vba_project_roundtrip_any_case (audit 2, CFB-1: the container may store dir and the module "
+        "streams under any case spelling of their ASCII letters). No "
         "known class left (nameless_reference repaired in /repo by b2fb93c). Totality: C18_no_panic_decompress (every byte string: "
         "not Panic, not OutOfFuel, output <= 4096 x chunks, 2 x chunks <= input length - 1), C18_no_panic_dir. Tie: hook "
         "decompress_stream on extracted encodings under literal-only / greedy / random / raw tokenisations and malformed containers, "
@@ -172,7 +180,11 @@ P = {
         "records of the sheet and any NESTED substreams BOF..EOF (embedded charts, [MS-XLS] 2.1.7.20.5 puts them BEFORE the "
         "MergeCells records) holding any records incl. MERGECELLS of their own, BOF-EOF balanced), C17_table_meta_exact (unconditional: exists tables, read_table_metadata = Ok tables and their "
         "observation is the specified one — both relationship type URIs, absolute and ../ targets, escaped names, all xsd:boolean "
-        "spellings of insertRow, header-only / totals-only / empty tables), C17_name_unescape, C17_table_names, C17_table_geometry "
+        "spellings of insertRow, header-only / totals-only / empty tables; since audit 2 (XLSX-1) the declared column names are what "
+        "the attribute values denote through BOTH layers, XML escapes and the ST_Xstring escapes _xHHHH_ of ECMA-376 22.9.2.19: a "
+        "header typed with Alt+Enter, stored a_x000a_b, is the column a<LF>b), C17_column_name_xstring (every legal spelling reads "
+        "back as xs_decode of its XML value; every text, escaped the way Excel escapes it with any choice of escaped characters and "
+        "digit case, reads back as itself), C17_name_unescape, C17_table_names, C17_table_geometry "
         "(data range = reference minus header rows on top and totals / insert rows at the bottom; None for a table without data rows) "
         "and C17_table_geometry_cells (table data = the sheet window via window_spec). No known class left (five repaired in /repo). "
         "Totality: C17_no_panic_get_dimension / _read_merge_cells / _parse_merge_cells / _table_metadata (any bytes / event lists: "
@@ -187,7 +199,8 @@ P = {
         "with their CONTINUEs that the globals loop passes over, any FILEPASS body and any well-framed records after it the result "
         "is Err Password; C20_encrypted_ooxml_is_password_any_layout / _encrypted_stream_is_password_any_layout: for EVERY container "
         "whose ROOT storage holds an EncryptedPackage object and EVERY valid physical layout whose links are a tree the check on the file BYTES "
-        "is Err Password (composed with C13_has_directory_root; _any_layout_flat: files without hierarchy, an object of that name anywhere); "
+        "is Err Password (composed with C13_has_directory_root; _any_layout_flat: files without hierarchy, an object of that name anywhere; "
+        "the name in any case spelling of its ASCII letters since the fix of audit-2 finding CFB-1: mem_name / name_equiv); "
         "C20_ods_encryption_data_is_password and C20_ods_manifest_spec; and the converse "
         "C20_no_false_positive_{xls,xls_real,ooxml,ooxml_any_layout,ooxml_dirs,ods}, C20_nested_encrypted_package_not_password (an "
         "EncryptedPackage held only by an embedded object is not password protection). Totality: C20_no_panic_ooxml_check(_file), "
@@ -242,7 +255,11 @@ P = {
         "the array), C13_children_of_object; C13_workbook_stream_preferred (Xls::parse_workbook reads the ROOT storage's Workbook, else its "
         "Book, wherever embedded objects sit; hypothesis: no root STORAGE is called Workbook), C13_has_directory_root; files without hierarchy "
         "(root child id NOSTREAM: the flat scan): C13_find_dir_first, C13_flat_layout_independent(_first), C13_flat_workbook_stream_preferred, "
-        "C13_has_directory_flat; built from C13_header_roundtrip (v3/v4), C13_difat_roundtrip, C13_fat_load_roundtrip, "
+        "C13_has_directory_flat; since audit 2 (CFB-1) names compare up to the case of their ASCII letters in the reader "
+        "(str::eq_ignore_ascii_case), in the specification (child_index / spec_path, uniqueness per storage and over the file) and in "
+        "the proofs: C13_layout_independent_any_case (a stream is read back under EVERY case spelling of the names of its path, "
+        "respell_path flags path, whatever the case of the stored names: WORKBOOK, BOOK, _vba_project_cur), C13_spec_path_any_case, "
+        "C13_respell_same_name; built from C13_header_roundtrip (v3/v4), C13_difat_roundtrip, C13_fat_load_roundtrip, "
         "C13_dir_chain_roundtrip, C13_dirs_roundtrip (UTF-16 names, link fields), C13_minifat_load_roundtrip, C13_ministream_roundtrip, "
         "C13_chain_follow (any duplicate-free chain, any state of the lazy sector cache), C13_mini_compose, C13_empty_stream; "
         "C13_chain_cycle_is_error and totality C13_chain_total, C13_no_panic_cfb_new, C13_no_panic_get_stream, C13_children_fuel_suffices "
@@ -254,8 +271,10 @@ P = {
         "damaged — cycles, shared nodes, dangling ids), the Python reading of the specification cross-checked against the extracted "
         "Cfb.spec_path, malformed containers, Xls::new on containers with two workbooks, and every xls fixture re-laid-out under random "
         "layouts — alone and with ANOTHER fixture's whole tree embedded next to it — through Xls::new + worksheet_range + vba_project.",
-   note=TB + " The 7.2 MB DIFAT case is compared code vs spec only (the extracted model is too slow on it). Name comparison is exact (MS-CFB compares "
-        "upper-cased names); object types are not read (a root STORAGE named Workbook is taken for the stream: stated as a hypothesis).",
+   note=TB + " The 7.2 MB DIFAT case is compared code vs spec only (the extracted model is too slow on it). Name comparison folds the ASCII "
+        "letters only (MS-CFB 2.6.4 applies the simple case conversion of a writer-dependent Unicode version to every UTF-16 unit): names "
+        "that differ in the case of a non-ASCII letter count as different in code, model and specification alike (notes/C13.md); object types "
+        "are not read (a root STORAGE named Workbook is taken for the stream: stated as a hypothesis).",
    technique="Coq proof (byte-level round trips of header, DIFAT, FAT, directory, mini structures; chain induction with cache invariant; stack walk vs in-order walk of the sibling trees; induction over paths) + extracted-encoder correspondence",
    design_ref="5/C13"),
  "C16": dict(claimed=True,
